@@ -275,3 +275,82 @@ func VerifC14Select() {
 	_, err3 := sel.Select(seed, 7, libver, v6)
 	verifnd.Assert(err3 != nil, "C14.select.unknown-generation")
 }
+
+// VerifC14History: "the result depends on those inputs alone".  A selector with
+// two generations whose single groups list the SAME two networks (arbitrary,
+// possibly equal) but carry independent weights and port-randomisation flags,
+// and a second group in generation 2 that repeats the first network under the
+// opposite flag order.  A selection from one generation, then from the other,
+// then from the first again: every result must be what that generation's
+// configuration alone dictates (address inside the chosen group's network, that
+// group's flag), the third must equal the first, and the configuration must be
+// unchanged by the selections.  (Quick tier: two selections; the repeat of the
+// first is thorough-tier.)
+// verif:shards=2
+func VerifC14History() {
+	first := uint(1 + verifnd.Choose("first-generation", 2))
+	libver := uint(verifnd.Range("libver", 2, 1<<20))
+	sa := verifOneSpec("netA", false, 0, []int{24}, []int{96})
+	sb := verifOneSpec("netB", false, 0, []int{24, 32}, []int{96})
+	// bound: networks with a zero first byte are finding C14-F1's territory (other harnesses)
+	verifnd.Cut("history-nets-first-byte-nonzero", verifnd.And(sa.ip[0] != 0, sb.ip[0] != 0))
+	strA, strB := verifnd.CIDR(sa.ip, sa.ones), verifnd.CIDR(sb.ip, sb.ones)
+	mk := func(tag string, ngroups int) ([]*pb.PhantomSubnets, []verifNetSpec) {
+		var gs []*pb.PhantomSubnets
+		var specs []verifNetSpec
+		for g := 0; g < ngroups; g++ {
+			w := 1 + uint32(verifnd.U8(tag+".weight")&3) // bound: weights 1..4 (arbitrary weights: VerifC14WeightedHkdf)
+			rnd := verifnd.Bool(tag + ".randomize")
+			strs := []string{strA, strB}
+			a, b := sa, sb
+			a.group, b.group = g, g
+			if g == 1 {
+				strs = []string{strA}
+				specs = append(specs, a)
+			} else {
+				specs = append(specs, a, b)
+			}
+			gs = append(gs, &pb.PhantomSubnets{Weight: &w, Subnets: strs, RandomizeDstPort: &rnd})
+		}
+		return gs, specs
+	}
+	g1, specs1 := mk("gen1", 1)
+	g2, specs2 := mk("gen2", 2)
+	sel := &PhantomIPSelector{Networks: map[uint]*SubnetConfig{1: {WeightedSubnets: g1}, 2: {WeightedSubnets: g2}}}
+	rounds := 1 // bound (quick): draws accepted at the first round (rejection rounds: the other harnesses)
+	if verifnd.Thorough() {
+		rounds = 2
+	}
+	verifnd.LoopBound("crypto/rand.Int", rounds)
+	gens := map[uint][]*pb.PhantomSubnets{1: g1, 2: g2}
+	specs := map[uint][]verifNetSpec{1: specs1, 2: specs2}
+	snapshot := func() (out []interface{}) {
+		for _, gen := range []uint{1, 2} {
+			ws := sel.Networks[gen].WeightedSubnets
+			out = append(out, len(ws))
+			for _, g := range ws {
+				out = append(out, g, g.GetWeight(), g.GetRandomizeDstPort(), len(g.Subnets))
+			}
+		}
+		return
+	}
+	before := snapshot()
+	seed1, seed2 := verifnd.Bytes("seed1", 16), verifnd.Bytes("seed2", 16)
+	ip1, err1 := sel.Select(seed1, first, libver, false)
+	verifCheckResult(ip1, err1, false, specs[first], gens[first], "history.first")
+	ip2, err2 := sel.Select(seed2, 3-first, libver, false)
+	verifCheckResult(ip2, err2, false, specs[3-first], gens[3-first], "history.second")
+	if verifnd.Thorough() {
+		ip3, err3 := sel.Select(seed1, first, libver, false)
+		verifnd.Assert((err1 == nil) == (err3 == nil), "C14.history.repeat.err")
+		if err1 == nil && err3 == nil && ip1 != nil && ip3 != nil && ip1.IP() != nil && ip3.IP() != nil {
+			verifnd.Assert(verifnd.BytesEq(*ip1.IP(), *ip3.IP()) && ip1.SupportRandomPort() == ip3.SupportRandomPort(), "C14.history.repeat.same")
+		}
+	}
+	after := snapshot()
+	same := len(before) == len(after)
+	for i := 0; same && i < len(before); i++ {
+		same = before[i] == after[i]
+	}
+	verifnd.Assert(same, "C14.history.configuration-unchanged")
+}
